@@ -186,6 +186,8 @@ namespace {
     }
     res += "]";
     chai.reset();
+    env.kept.reset();
+    res += ",\"constructed\":" + std::to_string(Tk::reg().constructed - 3) + ",\"destroyed\":" + std::to_string(Tk::reg().destroyed);
     res += ",\"live\":" + std::to_string(Tk::live() - 3) + ",\"uaf\":" + std::to_string(Tk::touched_after_destroy());
     res += "}";
     return res;
